@@ -19,7 +19,9 @@ LEMMAS = [
     },
     {
         "id": "L2-buffer-list-count",
+        # the buffer list's implementation of its (crate-private) list trait's push, whatever trait and method are called
         "function": "<tz::datetime::find::FoundDateTimeListRefMut<'_> as tz::datetime::find::DateTimeList>::push",
+        "function_re": r"<tz::datetime::find::FoundDateTimeListRefMut<'_> as tz::datetime::find::\w+>::\w+",
         "kind": "ASSERT:overflow:Add",
         "max_n": 1,
         "cannot": "counting argument over the whole search (number of pushes per call), not a per-site fact",
@@ -80,16 +82,23 @@ def apply_contract(I, S, callee, args, ret):
 
 def classify(obligations, instance_paths):
     """Split failing obligations into lemma-covered and genuine. Returns (by_lemma, remaining, anchor_errors)."""
+    import re
+
+    def matches(row, name):
+        if "function_re" in row:
+            return re.fullmatch(row["function_re"], name) is not None
+        return name == row["function"]
+
     anchors = []
     for row in LEMMAS:
-        if row["function"] not in instance_paths:
+        if not any(matches(row, n) for n in instance_paths):
             anchors.append("lemma %s names %s which no longer exists" % (row["id"], row["function"]))
     used = {row["id"]: 0 for row in LEMMAS}
     by_lemma, remaining = [], []
     for o in obligations:
         row = None
         for r in LEMMAS:
-            if o["inst"] == r["function"] and o["kind"] == r["kind"] and used[r["id"]] < r["max_n"]:
+            if matches(r, o["inst"]) and o["kind"] == r["kind"] and used[r["id"]] < r["max_n"]:
                 row = r
                 break
         if row is not None:
